@@ -233,6 +233,9 @@ def run(repo: Repo, rep: Report, tier: str) -> None:
     rep.extra["action_paths"] = n_paths
     _delegate_event_sources(repo, rep, tier)
 
+    from .c08 import check_timeout_propagation
+    rep.rule("artim-configured", "the ARTIM timer whose expiry raises Evt18 carries the configured ACSE timeout (C08's timeout-propagation)")
+    check_timeout_propagation(repo, rep, "artim-configured")
 
 def _branch_polarity(conds, pat: str):
     """True iff the path took the branch on which `<x> != 1` / `is_requestor` holds."""
